@@ -1,7 +1,8 @@
 #![no_main]
-//! Operation histories for the container state machines: the first byte selects the sub-check, the rest
-//! is fed to its proptest strategy through the pass-through RNG, so libFuzzer's coverage feedback steers
-//! the same generators and oracles that the proptest campaigns use.
+//! Operation histories for the container state machines.  The input is decoded structurally into the
+//! sub-check's case type (pgcheck::fuzzde: every byte string is a case, small byte mutations are small
+//! case mutations), brought into the strategy's domain by the sub-check's domain function and run
+//! through the same interpreter and model as the proptest campaigns.
 use libfuzzer_sys::fuzz_target;
 
 const TARGETS: &[(&str, &str)] = &[
@@ -16,12 +17,18 @@ const TARGETS: &[(&str, &str)] = &[
 ];
 
 fuzz_target!(|data: &[u8]| {
-    if data.len() < 2 {
-        return;
-    }
-    let sel = std::env::var("PGFUZZ_TARGET").ok().and_then(|s| s.parse::<usize>().ok()).unwrap_or(data[0] as usize);
+    // PGFUZZ_TARGET selects the sub-check (whole input = encoded case); without it the first byte does
+    let (sel, body) = match std::env::var("PGFUZZ_TARGET").ok().and_then(|s| s.parse::<usize>().ok()) {
+        Some(sel) => (sel, data),
+        None => {
+            if data.is_empty() {
+                return;
+            }
+            (data[0] as usize, &data[1..])
+        }
+    };
     let (prop, sub) = TARGETS[sel % TARGETS.len()];
     static PROPS: std::sync::OnceLock<Vec<pgcheck::engine::Property>> = std::sync::OnceLock::new();
     let props = PROPS.get_or_init(pgcheck::props::all);
-    pgcheck::engine::fuzz_one(props, prop, sub, &data[1..]);
+    pgcheck::engine::fuzz_one(props, prop, sub, body);
 });
